@@ -20,6 +20,19 @@ theorem exit0_main_runPlan (C : exit0_Ctx) (hG : exit0_Good C) (hm : C.env.stdin
   obtain ⟨b', h⟩ := World.wpS_sound plan (exit0_mainP C hG hm hsyn confOk conf input hdirs hstep hreg true) hp.budget
   exact h he
 
+/-- **The standard fuel suffices** for a run that ends without the error flag (maildir mode, at most one fault,
+`exit0_Good`: no directory walked twice, distinct names, every name of a walked directory registered, no message sent to a
+directory still to be walked): no `readdir` loop of the model stopped for lack of fuel. -/
+theorem exit0_main_fuel (C : exit0_Ctx) (hG : exit0_Good C) (hm : C.env.stdinMode = false) (hsyn : C.env.syntaxOnly = false)
+    (confOk : Bool) (conf : List ConfBlock) (input : Bytes) (hdirs : C.dirs = exit0_dirsOf conf)
+    (hstep : ∀ b ∈ conf, exit0_StepOK C.env C.orc b.expr) (hreg : WholeReg C.w0 C.files0)
+    (plan : Plan) (hp : World.SingleFault plan)
+    (he : (runPlan plan (mainP C.env C.orc confOk conf C.files0 input) C.w0 0 []).1.2.error = false) :
+    (runPlan plan (mainP C.env C.orc confOk conf C.files0 input) C.w0 0 []).1.2.fuelOut = false := by
+  rw [World.runPlan_eq] at he ⊢
+  obtain ⟨b', h⟩ := World.wpS_sound plan (exit0_mainP' C hG hm hsyn confOk conf input hdirs hstep hreg true) hp.budget
+  exact (h he).2.2
+
 /-- In maildir mode exit status 0 means that the error flag is clear. -/
 theorem exit0_status_zero (env : PEnv) (orc : EvalOracles) (confOk : Bool) (conf : List ConfBlock) (files : Files) (input : Bytes)
     (w : World) (plan : Plan) (hm : env.stdinMode = false)
